@@ -35,6 +35,26 @@ def form(op):
     return f"{m}(str)"
 
 
+def canon_args(a):
+    import json
+    return json.dumps(a, sort_keys=True)
+
+
+def _is_fresh_twin(restarted, fresh):
+    """J4 compares a rule whose sentence was started over with a fresh rule that received exactly
+    the calls of the last sentence (same architecture), every call of both accepted."""
+    if not restarted or not fresh:
+        return False
+    if any(r != "ok" for _, _, r in restarted) or any(r != "ok" for _, _, r in fresh):
+        return False
+    if restarted[0][0] != "based_on" or fresh[0][:2] != restarted[0][:2]:
+        return False
+    starts = [i for i, c in enumerate(restarted) if c[0] == "layers_that"]
+    if not starts:
+        return False
+    return [c[:2] for c in fresh[1:]] == [c[:2] for c in restarted[starts[-1]:]]
+
+
 def _alias_sfx(passed, mutated, obj):
     return "/caller-list-changed-since" if passed.get(obj, set()) & mutated else ""
 
@@ -49,7 +69,8 @@ def judge_c16(plan, result):
     vocab = plan.get("vocab", [])
     model = {}  # obj -> model instance; removed once the object left the specified domain
     after_reject = {}
-    tagged = {}  # tag -> (step, outcome) of an evaluation a later twin is compared with (J4)
+    tagged = {}  # tag -> (step, outcome, object) of an evaluation a later twin is compared with (J4)
+    calls_of = {}  # obj -> [(method, arguments, outcome)]
     passed = {}  # obj -> names of caller-owned lists it was handed (F14)
     mutated = set()  # caller-owned lists changed after they were handed over
     for ev in result["log"]:
@@ -67,6 +88,9 @@ def judge_c16(plan, result):
                 model[obj] = (models.LayerDefModel() if op["cls"] == "LayeredArchitecture"
                               else models.LayerRuleModel())
             continue
+        if op["op"] == "call":
+            # every call an object received, with its outcome (J4 compares only true twins)
+            calls_of.setdefault(obj, []).append((op["m"], canon_args(op.get("a")), res.get("r")))
         if res["r"] == "skip":
             st["skipped"] += 1
             continue
@@ -74,8 +98,12 @@ def judge_c16(plan, result):
             # J4: a LayerRule whose sentence was started over (layers_that() again) has exactly the
             # subject layer of its new sentence: same outcome as a fresh rule given only that sentence
             if op.get("tag"):
-                tagged[op["tag"]] = (ev["i"], res)
+                tagged[op["tag"]] = (ev["i"], res, obj)
             ref = tagged.get(op.get("twin_of"))
+            if ref is not None and not _is_fresh_twin(calls_of.get(ref[2]), calls_of.get(obj)):
+                # (a plan cut down by the minimiser: this is no longer the fresh twin of that rule)
+                st["restart_twins_not_comparable"] = st.get("restart_twins_not_comparable", 0) + 1
+                ref = None
             if ref is not None:
                 st["restart_twins_compared"] = st.get("restart_twins_compared", 0) + 1
                 a, b = ref[1], res
